@@ -51,13 +51,14 @@ claim('C01',
       '__init__ built from the constructor argument of the same role (W1); every option the constructor accepts is dispatched to '
       'the map of that name (W2); the theta length allocated for each (option, real/complex, flag) is the same exact polynomial in '
       'dim, rank as the length the functional accepts for that field (W3); no dtype test is constantly false (K3); the ball map '
-      'theta*h(r) has norm r*h(r) < 1 for EVERY theta, decided exactly on the polynomial den - r*num (RB1); NumPy and PyTorch arms '
+      'theta*h(r) has norm r*h(r) < 1 for EVERY theta, decided exactly on the polynomial den - r*num (RB1); in the 7 batched maps no operation combines arrays whose batch axis sits '
+      'at different broadcast positions (SH1 shape inference); NumPy and PyTorch arms '
       'of 18 functional maps are the same computation (B1). Membership for the other manifolds (unit norm, PSD, X^dagger X = I, '
       'simplex, interval) for all theta is value-level and NOT decided.',
       'Trusted: role table {cayley_order->order, euler_with_phase->with_phase}; exact polynomial arithmetic over Q with //2 rewritten '
       'only for always-even numerators.',
       'ast call binding by parameter name + symbolic evaluation of constructor/functional length formulas to exact polynomials',
-      'DESIGN.md 4 (W, K), 5 C01')
+      'DESIGN.md 4 (W, K, RB1, SH1), 5 C01')
 claim('C02',
       'Decides three necessary conditions of "locally onto": the allocated parameter count is >= the manifold dimension for every '
       '2<=dim<=12, 1<=rank<=dim and equal to it for the charts the property lists as exact (W4); theta is written into a Gell-Mann '
@@ -125,7 +126,9 @@ claim('C03',
       'operand roles, in storage order (D1); to_unitary transposes its row-filled matrix (U1); the computed einsum leg lists of '
       'state.apply_gate, dm.apply_gate (both sides, conjugated operator on the right) and dm.operator_expectation follow the '
       'relabelling idiom with operator legs ordered (fresh/output, chosen/input) - op, not op^T, is applied (R1, symbolic typing of '
-      'the list-building idioms); shift_qubit_index_ covers every kind (D3); no cached function hands out a shared Circuit (O2). '
+      'the list-building idioms; a conditional conjugate must inspect the operator itself; targets of a controlled gate are relabelled '
+      'by their position among the non-control qubits); the target tuple recorded by every builder keeps the caller\'s order (D5); '
+      'shift_qubit_index_ covers every kind (D3); no cached function hands out a shared Circuit (O2). '
       'The control-subspace slicing (reduce_shape_index arithmetic) and marginal probabilities are value-level and NOT decided.',
       'Trusted: canonical gate matrices in sa/gateval.py; the role patterns of D1. kraus gates have no dispatch arm by the '
       "source's own TODO and are excluded.",
